@@ -93,3 +93,10 @@ struct Stats {
 };
 
 } // namespace vh
+
+// ---- silence the library's own messages (they go to stdout through message_extern)
+#include "geoslib_io.h"
+namespace vh {
+inline void sinkMessage(const char*) {}
+inline void muteLibrary() { redefine_message(sinkMessage); redefine_error(sinkMessage); }
+}
